@@ -199,3 +199,11 @@ Proof.
     assert (R : run fixed_flags (sigma_ranks [1; 0]%nat) Query 2 6 bridged_async = Done r) by exact E.
     vm_compute in R. injection R as <-. split; reflexivity.
 Qed.
+
+(** the two failure-nulls of C01's reference (o and l) are the plan's visible nulls *)
+From ApiFu Require Import Fut.BridgeNulls.
+Example bridge_nulls_here :
+  null_paths (ExecSpec.failure_nulls (ExecSpec.exec_spec C01.ex_schema C01.ex_doc C01.ex_env C01.ex_fuel C01.ex_W)) =
+  [[PKey (C01.nm "o")]; [PKey (C01.nm "l")]] /\
+  site_paths (visible_nulls bridged_async) = [[PKey (C01.nm "o")]; [PKey (C01.nm "l")]].
+Proof. vm_compute. split; reflexivity. Qed.
